@@ -1,6 +1,7 @@
 """C05 — shaping is a pure function: repeatable, buffer/plan reuse and threads are safe."""
 import os, re
 import vlib, corpus
+import _life
 
 MODULE = "RbModel.Props.C05"
 LEVEL = "proof"
@@ -20,7 +21,7 @@ def fonts_dir():
 
 
 FIXED_FONTS = ["in-house/03e3f463c3a985bc42096620cc415342818454fb.ttf", "text-rendering-tests/TestMORXThirtyone.ttf",
-               "text-rendering-tests/NotoNastaliqUrdu-Regular.ttf"]
+               "in-house/NotoNastaliqUrdu-Regular.ttf"]
 
 
 def pick_fonts(r, k):
@@ -239,18 +240,46 @@ def recycle_search(ctx, shim, r, n):
             pass
         req = fill_ops(r, scripts, big=r.chance(1, 25))
         cases.append((f, hist, req, r.choice(["shape ", "plan "]) + r.choice(FEATS)))
+    cases = [c + ("random",) for c in cases]
+    # histories that leave EVERY kind of residue (cursor after an in-place GPOS pass, both contexts, properties, level,
+    # not-found glyph, flags, allocation) followed by requests that are sensitive to one kind each (tools/props/_life.py)
+    rf = _life.residue_font()
+    for i in range(ctx.budget(1200, 30000)):
+        kind = _life.SENSITIVE[i % len(_life.SENSITIVE)]
+        req, fam = _life.sensitive_request(r, kind)
+        hist = _life.residue_use(r, fam if r.chance(1, 2) else None)
+        if r.chance(1, 3):
+            hist = _life.residue_use(r) + ["clear"] + hist
+        cases.append((rf, hist, req, r.choice(["shape ", "plan "]) + r.choice(_life.FEATS), kind))
+    # the same on corpus fonts that have GPOS and a dotted circle, with the corpus' own texts: earlier use = the text,
+    # request = the text with its first combining mark moved to the front, BEGINNING_OF_TEXT, every cluster level
+    cg = _life.corpus_gpos_cases(shim, corpus.load())
+    for fs, text in r.shuffle(cg)[:ctx.budget(150, 3000)]:
+        m = next(ch for ch in text if _life.is_mark(ch))
+        t2 = [ord(m)] + [ord(ch) for ch in text]
+        if r.chance(1, 2):
+            t2 = t2[:r.range(2, len(t2))]
+        hist = ["pre " + _life.hx([ord(ch) for ch in text[-3:]]), "push " + _life.hx([ord(ch) for ch in text]),
+                "post " + _life.hx([ord(ch) for ch in text[:3]]), f"flags {r.choice(FLAGS)}", f"level {r.below(3)}",
+                r.choice(["shape -", "plan -"])]
+        cases.append((fs, hist, ["push " + _life.hx(t2), f"flags {r.choice(_life.FLAGS_BOT)}", f"level {r.below(3)}"],
+                      r.choice(["shape -", "plan -"]), "corpus-mark-first"))
     lines = []
-    for f, hist, req, fin in cases:
+    for f, hist, req, fin, kind in cases:
         lines.append(f"lc {f} ; " + " ; ".join(hist + ["clear"] + req + [fin, "dump"]))
         lines.append(f"lc {f} ; " + " ; ".join(["new"] + req + [fin, "dump"]))
     outs = vlib.run_lines(shim, lines, timeout=900)
     bad = []
     nontriv = 0
-    for i, (f, hist, req, fin) in enumerate(cases):
+    kinds, badkinds = {}, {}
+    for i, (f, hist, req, fin, kind) in enumerate(cases):
         a, b = outs[2 * i], outs[2 * i + 1]
+        kinds[kind] = kinds.get(kind, 0) + 1
+        nb = len(bad)
         if not a.startswith("ok") or not b.startswith("ok"):
             if a != b or a.startswith(("panic", "abort", "timeout")):
                 bad.append((len(lines[2 * i]), i, "crash or reject", a[:300], b[:300]))
+                badkinds[kind] = badkinds.get(kind, 0) + 1
             continue
         sa, sb = a[3:].split(" | "), b[3:].split(" | ")
         # compare: the filled buffer right before the shape (content, props) and the shaping result
@@ -263,16 +292,32 @@ def recycle_search(ctx, shim, r, n):
             bad.append((len(lines[2 * i]), i, f"recycled buffer differs from a fresh one before shaping: {diff}", sa[-3], sb[-3]))
         elif ra != rb:
             bad.append((len(lines[2 * i]), i, "shaping result differs between recycled and fresh buffer", ra[:400], rb[:400]))
+        if len(bad) > nb:
+            badkinds[kind] = badkinds.get(kind, 0) + 1
     bad.sort()
-    for _, i, what, x, y in bad[:3]:
-        f, hist, req, fin = cases[i]
+    # the shortest failing input overall, then the shortest of every other kind of request (at most 4 replays)
+    shown, pick = set(), []
+    for x in bad:
+        k = cases[x[1]][4]
+        if not pick or (k not in shown and len(pick) < 4):
+            pick.append(x)
+            shown.add(k)
+    for _, i, what, x, y in pick:
+        f, hist, req, fin, kind = cases[i]
         ctx.violation(f"buffer recycled with clear() is not equivalent to a fresh buffer — {what}",
-                      {"stage": "search", "stream": "recycle", "font": f, "history": hist, "request": req, "final": fin,
-                       "recycled": x, "fresh": y})
-    ctx.note_search("recycle", len(cases), nontriv, deviations=len(bad),
-                    rule="public api only: <random history incl. shapes of empty/non-empty buffers, other directions/levels/"
-                         "flags> ; clear ; <request> ; shape  vs  new ; <request> ; shape — the filled buffer as its public getters "
-                         "show it (len, direction, script, language, cluster_level, flags) and the output must be identical; non-trivial = at least one output glyph")
+                      {"stage": "search", "stream": "recycle", "kind": kind, "font": f, "history": hist, "request": req,
+                       "final": fin, "recycled": x, "fresh": y})
+    ctx.note_search("recycle", len(cases), nontriv, deviations=len(bad), kinds=kinds, deviations_per_kind=badkinds,
+                    rule="public api only: <earlier use> ; clear ; <request> ; shape  vs  new ; <request> ; shape — the filled "
+                         "buffer as its public getters show it (len, direction, script, language, cluster_level, flags) and the "
+                         "output must be identical; non-trivial = at least one output glyph.  Earlier uses: random histories "
+                         "incl. shapes of empty / non-empty buffers (kind random); uses that leave every kind of residue on a "
+                         "generated multi-script font with GDEF / GSUB / GPOS — cursor after an in-place GPOS pass, pre- and "
+                         "post-context, direction / script / language, cluster level, not-found glyph, flags, long text — "
+                         "followed by a request sensitive to one of them: mark-first text with BEGINNING_OF_TEXT (longer and "
+                         "shorter than the earlier output), joining text ending / starting in a dual-joining letter filled by "
+                         "push_str without a context call, an unsupported variation selector, no property call at all; and "
+                         "corpus fonts with GPOS and U+25CC on the corpus' texts (mark moved to the front), all cluster levels")
 
 
 def repeat_search(ctx, shim, r, ncases):
